@@ -224,9 +224,13 @@ def elimination_rule(ctx, rid="R4.1"):
 
     def hook(fn, args, kwargs):
         if isinstance(fn, FuncInfo) and fn.name == "_Solve_Axb":
-            s = Solved(args[2], args[3])
+            # arguments by NAME (a call with keywords is the same call, refactored/C01-R5)
+            names = [a.arg for a in fn.node.args.args]
+            bound = dict(zip(names, args))
+            bound.update(kwargs)
+            s = Solved(bound.get(names[2]), bound.get(names[3]))
             solved.append(s)
-            extra_ops.append(tuple(args[4:7]))
+            extra_ops.append(tuple(bound.get(nm) for nm in names[4:7]))
             return s
         return NotImplemented
 
